@@ -101,7 +101,7 @@ def run(prog, job: dict) -> dict:
         rec["ref_items"] = freeze(P.unsplit(it, [i for i in ref.items]))
         rec["ref_per_frame"] = ref.per_frame
         rec["ref_graph_starts"] = ref.graph_starts
-        rec["audit"] = {"redundant_entries": ref.redundant_entries[:5], "missed_elisions": ref.missed_elisions[:5], "missed_zero": ref.missed_zero[:5], "entries": dict(ref.entries), "elided": ref.elided_terms, "zero_forms": ref.zero_forms, "rows": ref.rows}
+        rec["audit"] = {"redundant_entries": ref.redundant_entries[:5], "missed_elisions": ref.missed_elisions[:5], "missed_elision_terms": freeze(P.unsplit(it, [t for _o, t in ref.missed_elision_terms[:5]])), "missed_elision_slots": [o for o, _t in ref.missed_elision_terms[:5]], "missed_zero": ref.missed_zero[:5], "entries": dict(ref.entries), "elided": ref.elided_terms, "zero_forms": ref.zero_forms, "rows": ref.rows}
         # pyjelly's own readers
         rec["readers"] = {}
         for rinteg, parser in job.get("parsers", [(integ, "parse_jelly_flat")]):
